@@ -320,8 +320,14 @@ fn sketches(ctx: &Ctx, which: usize, rep: &mut Report) {
         2 => {
             // T-digest
             for sf in ALL_SF {
+              for wmode in 0..3usize {
                 for &(delta, backlog) in &[(1.1f64, 0usize), (10.0, 10), (100.0, 1000), (1000.0, 0), (300.0, 5000)] {
-                    let m = Meas { what: format!("tdigest({},delta={},backlog={})", sf.name(), delta, backlog), ideal: 16.0 * (delta + 3.0 + backlog as f64 + 1.0), c: 4.0, slack: 1024.0 };
+                    if wmode > 0 && !(delta == 100.0 || delta == 10.0) {
+                        continue;
+                    }
+                    // unit weights, normalised weights 1/N (total weight far below delta), weights 1e-5..1e5
+                    let wname = ["unit", "1/N", "1e-5..1e5"][wmode];
+                    let m = Meas { what: format!("tdigest({},delta={},backlog={},weights={})", sf.name(), delta, backlog, wname), ideal: 16.0 * (delta + 3.0 + backlog as f64 + 1.0), c: 4.0, slack: 1024.0 };
                     rep.config(&m.what);
                     let wit = json!({"scale": sf.name(), "delta": delta, "backlog": backlog});
                     let mut base = alloc::live();
@@ -334,7 +340,13 @@ fn sketches(ctx: &Ctx, which: usize, rep: &mut Report) {
                             continue;
                         }
                         while done < n {
-                            t.insert(r.normal() * 10.0 + (done % 100) as f64);
+                            let x = r.normal() * 10.0 + (done % 100) as f64;
+                            match wmode {
+                                0 => t.insert(x),
+                                1 => t.insert_weighted(x, 1.0 / 100_000.0),
+                                _ => t.insert_weighted(x, 10f64.powf(r.f64() * 10.0 - 5.0)),
+                            }
+
                             if done % 5000 == 4999 {
                                 let _ = t.quantile(0.5);
                             }
@@ -354,6 +366,7 @@ fn sketches(ctx: &Ctx, which: usize, rep: &mut Report) {
                     chk!(rep, &m, "after-clear-refill-cycles", base, done, wit.clone());
                     rep.max("tdigest_final_centroids_minus_delta", t.n_centroids() as f64 - delta);
                 }
+              }
             }
         }
         3 => {
@@ -393,13 +406,23 @@ fn sketches(ctx: &Ctx, which: usize, rep: &mut Report) {
                         while done < n {
                             // rotating popularity so that displacements keep happening
                             let hot = (done / 500) as u64;
+                            if done % 20_000 == 0 {
+                                // a size-hinted batch through Extend
+                                let batch: Vec<u64> = (0..5000).map(|_| if r.chance(0.5) { hot * 1000 + r.below(20) } else { r.next() }).collect();
+                                h.extend(batch);
+                                done += 5000;
+                                continue;
+                            }
                             h.add(if r.chance(0.5) { hot * 1000 + r.below(20) } else { r.next() });
                             done += 1;
                         }
                         chk!(rep, &m, "after-stream", base, n, wit.clone());
                     }
-                    for _ in 0..100 {
+                    for cyc in 0..100 {
                         h.clear();
+                        if cyc % 10 == 0 {
+                            h.extend(0..50_000u64);
+                        }
                         for j in 0..(3 * k).min(3000) {
                             h.add(j as u64);
                         }
